@@ -144,6 +144,10 @@ package linux
 //vc:  assign at "line = strings.TrimSpace(line)" appendSection = ite(strings.TrimSpace(arg0) == "[APPEND]", true, ite(len(strings.TrimSpace(arg0)) > 0 && strings.TrimSpace(arg0)[0] == 42, false, appendSection))
 //vc:  invariant[C18] 1 "for _, line := range lines" @appendFlagFollowsMarker appendRule == appendSection
 //vc:  assert[C18] at "ch.rules = append(ch.rules," @ruleCarriesAppendState arg1[0].append == appendSection
+// a table or chain header that appears a second time (hand-written raw file)
+// must not silently replace the rules collected under the first one
+//vc:  assert[C18] at "tb[name] = cMap" @tableDefinedOnce !(name in tb) || tb[name] == nil
+//vc:  assert[C18] at "cMap[name] = &chain{policy: policy}" @chainDefinedOnce !(name in cMap) || cMap[name] == nil
 
 // iptables half of C05: "no change" is reported only for equal rule sets.
 // checkExtra compares key sets by joining the missing names, so a key that is
